@@ -253,8 +253,25 @@ impl Prog {
     }
     /// A plain engine resolves a sequence over a stream it knows to that stream's *source* type plus
     /// its first `.where`; that equals consuming the stream's emitted events only for pass/filter streams.
+    /// (A filter only counts when `v` is still an integer there: on the float sums of an aggregate the
+    /// stream `.where` and the sequence predicate disagree about `==`/`!=` with an integer literal, which is
+    /// C09's recorded divergence and not a matter of contexts.)
     pub fn view_equivalent(&self, j: usize) -> bool {
-        matches!(self.streams[j].op, Op::Pass | Op::Filter(..))
+        match self.streams[j].op {
+            Op::Pass => true,
+            Op::Filter(..) => self.v_is_int(&self.streams[j].src),
+            _ => false,
+        }
+    }
+    /// is field `v` of the events of this source an integer (no aggregate above it)?
+    pub fn v_is_int(&self, src: &Src) -> bool {
+        match src {
+            Src::Raw(_) => true,
+            Src::Stream(j) => match self.streams[*j].op {
+                Op::CountAgg { .. } | Op::SlideAgg { .. } | Op::Tumble { .. } => false,
+                _ => self.v_is_int(&self.streams[*j].src),
+            },
+        }
     }
     /// sequence streams whose source is a transforming stream of another context
     pub fn seq_over_remote_transform(&self) -> Vec<usize> {
@@ -368,7 +385,8 @@ fn build_prog(n_ctx: usize, raws: Vec<RawStream>, t: Topo) -> Prog {
                 // never both (derived streams of the context's own streams are free)
                 match src {
                     Src::Raw(_) => {
-                        if role[c] == Some(false) {
+                        // the last context is kept free of raw readers so that a cross-context consumer always has a home
+                        if role[c] == Some(false) || c + 1 == n_ctx {
                             return false;
                         }
                     }
